@@ -340,8 +340,34 @@ impl<'a, 'tcx> Cx<'a, 'tcx> {
             Const::Val(v, _) => Some(v),
             Const::Unevaluated(uv, _) => {
                 kv.push(("uneval", J::Str(tcx.def_path_str(uv.def))));
-                if uv.promoted.is_some() {
+                if let Some(p) = uv.promoted {
                     kv.push(("promoted", J::Bool(true)));
+                    // a promoted `&"literal"` (type &&str): recover the literal from the promoted body
+                    if uv.def.is_local() {
+                        let proms = tcx.promoted_mir(uv.def);
+                        if p.as_usize() < proms.len() {
+                            let pb = &proms[p];
+                            let mut lits: Vec<String> = vec![];
+                            for bbd in pb.basic_blocks.iter() {
+                                for st in &bbd.statements {
+                                    if let StatementKind::Assign(box (_, Rvalue::Use(Operand::Constant(pc), _))) = &st.kind {
+                                        if let Const::Val(v, _) = pc.const_ {
+                                            if let ConstValue::Slice { .. } = v {
+                                                if let Some(bytes) = v.try_get_slice_bytes_for_diagnostics(tcx) {
+                                                    if let Ok(sv) = std::str::from_utf8(bytes) {
+                                                        lits.push(sv.to_string());
+                                                    }
+                                                }
+                                            }
+                                        }
+                                    }
+                                }
+                            }
+                            if lits.len() == 1 && format!("{}", ty).ends_with("&str") {
+                                kv.push(("pstr", J::Str(lits.remove(0))));
+                            }
+                        }
+                    }
                 }
                 c.const_.eval(tcx, self.env, c.span).ok()
             }
